@@ -99,6 +99,7 @@ class Relay(W.NetPolicy):
         # held-back upstream data queries: [{"useq": s, "ufrag": f, "delay_us": d, "count": n}]: the first n data queries
         # that carry fragment f of upstream packet s travel d microseconds longer (two consecutive queries swap places)
         self.hold_up = [dict(h) for h in kw.get("hold_up", [])]
+        # ... "delay_us": -1 loses that query instead
 
     # -- transformations
     def _case(self, mode, b):
@@ -284,6 +285,9 @@ class Relay(W.NetPolicy):
                 for h in self.hold_up:
                     if c["kind"] == "data" and (c["useq"], c["ufrag"]) == (h["useq"], h["ufrag"]) and h.get("count", 1) > 0:
                         h["count"] = h.get("count", 1) - 1
+                        if h["delay_us"] < 0:
+                            self.log.append(("q", self.count["q"] - 1, "lost"))
+                            return res
                         self.log.append(("q", self.count["q"] - 1, "held"))
                         return res + [(self.latency + h["delay_us"], data, src, dst) for data, src, dst in outs]
         for data, src, dst in outs:
